@@ -107,6 +107,9 @@ func (f *Frame) call(b *ssa.BasicBlock, st *State, x *ssa.Call, cc *ssa.CallComm
 	if cv.fn != nil {
 		return f.staticCall(b, st, cv.fn, args, nil, rt, name, instr)
 	}
+	if len(cv.cands) > 0 && cv.t != "" {
+		return f.dispatch(b, st, cv, args, rt, name, instr)
+	}
 	// dynamic call through a function value
 	if cv.t != "" && instr != nil {
 		f.safetyObl(st, "nilfunc", not(eq(cv.t, "0")), instr)
@@ -245,9 +248,16 @@ func (f *Frame) contractCall(b *ssa.BasicBlock, st *State, ct *Contract, args []
 		}
 		mods[m] = true
 	}
+	havocked := map[string]bool{}
 	if all {
+		for k := range c.memSorts {
+			havocked[k] = true
+		}
 		f.havocAll(b, st, "call "+ct.Qual)
 	} else {
+		for k := range written {
+			havocked[k] = true
+		}
 		oldAlloc := tr.allocTerm(st)
 		for _, k := range sortedKeys(written) {
 			if _, ok := c.memSorts[k]; !ok {
@@ -265,12 +275,13 @@ func (f *Frame) contractCall(b *ssa.BasicBlock, st *State, ct *Contract, args []
 			f.noteWrite(k, b.Index)
 			if !mods[k] && len(c.memSorts[k].idx) >= 1 && c.memSorts[k].idx[0] == "Int" {
 				// frame: pre-existing objects unchanged
-				c.axiom(nw, fmt.Sprintf("(forall ((r Int)) (! (=> (< r %s) (= (select %s r) (select %s r))) :pattern ((select %s r))))", oldAlloc, nw, old, nw))
+				c.softAxiom(nw, fmt.Sprintf("(forall ((r Int)) (! (=> (< r %s) (= (select %s r) (select %s r))) :pattern ((select %s r))))", oldAlloc, nw, old, nw))
 			} else if !mods[k] {
 				st.mem[k] = old
 			}
 		}
 	}
+	tr.assumeGlobalInvs(st)
 	res := f.freshResult(st, rt, name)
 	var resVals []Val
 	if res.tup != nil {
@@ -280,6 +291,7 @@ func (f *Frame) contractCall(b *ssa.BasicBlock, st *State, ct *Contract, args []
 	}
 	for _, cl := range ct.Ensures {
 		env := tr.contractEnv(ct, cl.Params, append(append([]Val{}, args...), resVals...), st, pre)
+		env.havocked = havocked
 		st.guard = and(st.guard, tr.specBool(cl, env))
 	}
 	st.guard = c.defineBool("g_after_"+ct.FuncName, st.guard)
@@ -527,7 +539,7 @@ func (f *Frame) appendN(b *ssa.BasicBlock, st *State, s Val, elem types.Type, n 
 	// in place: cells outside [off+oldLen, off+newLen) unchanged
 	facts = append(facts, imp(fits, fmt.Sprintf("(forall ((k %s)) (! (=> (or %s %s) (= (select %s k) (select %s k))) :pattern ((select %s k))))",
 		it.isort(), it.lt(I64, k, it.add(I64, offT, oldLen)), it.le(I64, it.add(I64, offT, newLen), k), na, oldArr, na)))
-	c.axiom(na, and(facts...))
+	c.softAxiom(na, and(facts...))
 	st.mem[key] = c.define("H_"+key, tr.memSortFull(key), sx("store", cur, arrT, na))
 	f.noteWrite(key, b.Index)
 	res := c.define("app", "Slice", sx("mk_slice", arrT, offT, newLen, capT))
@@ -694,4 +706,58 @@ func (f *Frame) rangeNext(b *ssa.BasicBlock, st *State, x *ssa.Next) Val {
 		st.guard = and(append([]Sx{st.guard}, facts...)...)
 	}
 	return Val{tup: []Val{{t: ok, typ: types.Typ[types.Bool]}, k, v}}
+}
+
+// dispatch: call through a function value known (by a static scan of all stores into the
+// package-level variable it was loaded from) to be one of a finite set of functions.
+func (f *Frame) dispatch(b *ssa.BasicBlock, st *State, cv Val, args []Val, rt types.Type, name string, instr ssa.Instruction) Val {
+	tr := f.tr
+	c := tr.c
+	c.note(fmt.Sprintf("function values loaded from %s range over the functions stored into it anywhere in the program (static scan); calls through them are dispatched over that set", shortGlobal(cv.gl)))
+	var alts []Sx
+	for _, cand := range cv.cands {
+		alts = append(alts, eq(cv.t, c.funcID(cand)))
+	}
+	st.guard = c.defineBool("g_disp", and(st.guard, or(alts...)))
+	var sts []*State
+	var results [][]Val
+	for _, cand := range cv.cands {
+		cst := st.clone()
+		cst.guard = c.defineBool("g_disp_"+cand.Name(), and(st.guard, eq(cv.t, c.funcID(cand))))
+		cargs := append([]Val{}, args...)
+		r := f.staticCall(b, cst, cand, cargs, nil, rt, name, instr)
+		if cst.guard == "false" {
+			continue
+		}
+		sts = append(sts, cst)
+		if r.tup != nil {
+			results = append(results, r.tup)
+		} else if r.t != "" || r.addr != nil {
+			results = append(results, []Val{r})
+		} else {
+			results = append(results, nil)
+		}
+	}
+	if len(sts) == 0 {
+		st.guard = "false"
+		return f.zeroResult(rt)
+	}
+	m := tr.mergeStates(sts, "disp")
+	st.guard, st.mem = m.guard, m.mem
+	n := len(results[0])
+	if n == 0 {
+		return Val{}
+	}
+	out := make([]Val, n)
+	for i := 0; i < n; i++ {
+		var vs []Val
+		for _, r := range results {
+			vs = append(vs, r[i])
+		}
+		out[i] = tr.mergeVals(sts, vs, name)
+	}
+	if n == 1 {
+		return out[0]
+	}
+	return Val{tup: out}
 }
